@@ -20,6 +20,20 @@ pub const LAYOUT_NAMES: [&str; 10] = [
 ];
 pub const FORM_NAMES: [&str; 3] = ["bare", "any", "anyref"];
 
+include!(concat!(env!("OUT_DIR"), "/extra_layouts.rs"));
+
+/// the ten layouts known by name plus whatever else the tree ships (see build.rs)
+pub fn n_layouts() -> usize {
+    10 + extra_layout_names().len()
+}
+pub fn layout_name(li: usize) -> &'static str {
+    if li < 10 {
+        LAYOUT_NAMES[li]
+    } else {
+        extra_layout_names()[li - 10]
+    }
+}
+
 /// `&AnyLayout` form without a `'static` (a `static AnyLayout` would make the whole harness depend on
 /// `AnyLayout: Sync`, which is C20's business, not every monitor's): owns the wrapper and calls the
 /// by-reference impl `<&AnyLayout as KeyboardLayout>::map_keycode`.
@@ -65,6 +79,10 @@ pub fn bare_dyn(li: usize) -> Box<dyn KeyboardLayout> {
 
 /// form: 0 = the layout type itself, 1 = `AnyLayout` by value, 2 = `&AnyLayout`
 pub fn layout_obj(li: usize, form: usize) -> Box<dyn KeyboardLayout> {
+    if li >= 10 {
+        // a layout beyond the ten known ones: only the bare form exists for the harness (it may not be in AnyLayout)
+        return extra_layout(li - 10);
+    }
     match form {
         0 => bare_dyn(li),
         1 => Box::new(any_value(li)),
@@ -74,7 +92,7 @@ pub fn layout_obj(li: usize, form: usize) -> Box<dyn KeyboardLayout> {
 }
 
 pub fn layout_index(name: &str) -> Option<usize> {
-    LAYOUT_NAMES.iter().position(|n| *n == name)
+    (0..n_layouts()).find(|li| layout_name(*li) == name)
 }
 
 /// Run `$body` with `$L` bound to each concrete layout type value in turn (typed instantiation
@@ -157,7 +175,7 @@ impl KeyboardLayout for DynLayout {
     }
 }
 pub fn dyn_layout(li: usize, form: usize) -> DynLayout {
-    DynLayout(layout_obj(li, form), format!("{}/{}", LAYOUT_NAMES[li], FORM_NAMES[form]))
+    DynLayout(layout_obj(li, form), format!("{}/{}", layout_name(li), FORM_NAMES[form]))
 }
 
 /// One call received by a recording layout.
@@ -222,5 +240,23 @@ pub struct NullLayout;
 impl KeyboardLayout for NullLayout {
     fn map_keycode(&self, k: KeyCode, _m: &Modifiers, _h: HandleControl) -> DecodedKey {
         DecodedKey::RawKey(k)
+    }
+}
+
+/// A user-defined layout that answers with arbitrary decoded keys (a deterministic function of its inputs): characters
+/// of every kind and raw keys of every kind – including the modifier and lock keys themselves.  The decoder must pass
+/// whatever the installed layout returns through untouched, and nothing a layout returns may change the modifier record.
+#[derive(Debug, Clone, Copy, Default)]
+pub struct AdvLayout;
+impl KeyboardLayout for AdvLayout {
+    fn map_keycode(&self, k: KeyCode, m: &Modifiers, h: HandleControl) -> DecodedKey {
+        let mut x = (k as u8 as u64) << 16 | (crate::keys::bits_from_mods(m) as u64) << 1 | (h == HandleControl::Ignore) as u64;
+        x = (x ^ (x >> 7)).wrapping_mul(0x9E37_79B9_7F4A_7C15);
+        x ^= x >> 29;
+        match x % 3 {
+            0 => DecodedKey::RawKey(crate::keys::NAMED_KEYS[(x >> 8) as usize % crate::keys::NAMED_KEYS.len()]),
+            1 => DecodedKey::RawKey(crate::keys::MOD_KEYS[(x >> 8) as usize % crate::keys::MOD_KEYS.len()]),
+            _ => DecodedKey::Unicode(char::from_u32(0x20 + ((x >> 8) % 0x2F00) as u32).unwrap_or('?')),
+        }
     }
 }
